@@ -30,7 +30,7 @@ def free_sets(inst, tr, tier, rng):
     return ["ALL"]
 
 
-def input_domain(enc, inst):
+def flip_domain(enc, inst):
     cons = []
     for name, kind, node, seed in enc.t.inputs:
         p = enc.poly(node)
